@@ -422,7 +422,68 @@ def saved_dtype_rule(ctx, repo):
     ctx.floor("flow classes that store a dtype", n, 1)
 
 
+def samples_layout_rule(ctx):
+    """C13.samples: what the sample classes write is everything their constructor needs, in a layout that cannot lose a field.
+    (a) _encode_for_hdf5 removes no constructor field from the dictionary it writes (fields that are init=False are rebuilt on construction and may go);
+    (b) save() writes the nested layout unless asked otherwise: in the flat layout parameter columns and fields share one key space, so a parameter
+        named like a field (a run with a parameter called `beta`) overwrites that field and the reloaded population has lost it."""
+    repo = ctx.repo
+    n_cls = 0
+    for cname in ("BaseSamples", "Samples", "SMCSamples"):
+        C = repo.cls(f"aspire.samples:{cname}")
+        enc = C.resolve("_encode_for_hdf5")
+        if enc is None:
+            ctx.unknown("C13.samples", C.ident, "src/aspire/samples.py", "_encode_for_hdf5 not found", disc="removed")
+            continue
+        n_cls += 1
+        init_names = {f.name for f in C.init_fields()}
+        removed, unresolved = set(), []
+        for n_ in walk_no_nested(enc.node):
+            names = None
+            if isinstance(n_, ast.Call) and isinstance(n_.func, ast.Attribute) and n_.func.attr == "pop" and n_.args:
+                names = n_.args[0]
+            elif isinstance(n_, ast.Delete) and n_.targets and isinstance(n_.targets[0], ast.Subscript):
+                names = n_.targets[0].slice
+            if names is None:
+                continue
+            if isinstance(names, ast.Constant):
+                removed.add(names.value)
+                continue
+            # a loop variable over a tuple of names kept on the class
+            src = None
+            for l_ in walk_no_nested(enc.node):
+                if isinstance(l_, ast.For) and isinstance(l_.target, ast.Name) and isinstance(names, ast.Name) and l_.target.id == names.id:
+                    src = l_.iter
+            vals = None
+            if isinstance(src, (ast.Tuple, ast.List)):
+                vals = src
+            elif isinstance(src, ast.Attribute) and isinstance(src.value, ast.Name):
+                vals = C.class_attr(src.attr)
+            if isinstance(vals, (ast.Tuple, ast.List)) and all(isinstance(e_, ast.Constant) for e_ in vals.elts):
+                removed |= {e_.value for e_ in vals.elts}
+            else:
+                unresolved.append(n_)
+        if unresolved:
+            ctx.unknown("C13.samples", C.ident, loc_of(enc, unresolved[0]), "the encoder removes entries whose names are not constants of the class: not decided", disc="removed")
+            continue
+        lost = sorted(removed & init_names)
+        ctx.decide(not lost, "C13.samples", C.ident, loc_of(enc), f"the encoder of {cname} writes every constructor field (removed: {sorted(removed) or 'nothing'})",
+                   f"the encoder of {cname} removes {lost} before writing: these are constructor fields, which from_dict hands back to the constructor -- a set that carries them without the "
+                   "three densities they could be recomputed from (an SMC result: log_evidence without log_q) reloads with None", disc="removed")
+    B = repo.cls("aspire.samples:BaseSamples")
+    sv = B.resolve("save")
+    a_ = sv.node.args
+    pos = a_.posonlyargs + a_.args
+    defaults = dict(zip([x.arg for x in pos][len(pos) - len(a_.defaults):], a_.defaults))
+    fd = defaults.get("flat")
+    ctx.decide(isinstance(fd, ast.Constant) and fd.value is False, "C13.samples", sv.ident, loc_of(sv), "save() writes the nested layout by default",
+               f"save() defaults to flat={ast.unparse(fd) if fd is not None else '?'}: in the flat layout a parameter named like a field (`beta`) overwrites it, and SMCHistory.save(), which relies "
+               "on the default, writes populations that reload without their temperature", disc="layout")
+    ctx.count("sample_classes_checked_for_removed_fields", n_cls)
+
+
 def run(ctx):
+    samples_layout_rule(ctx)
     repo = ctx.repo
     um = repo.module(U)
     dataset_options_rule(ctx, repo)
@@ -885,7 +946,13 @@ MUTANTS += [
 MUTANTS += [
     M("torch flow stores the configured dtype only", _TF, "if dtype_value is None:\n            dtype_value = self.dtype\n        else:\n            dtype_value = resolve_dtype(dtype_value, torch)", "dtype_value = resolve_dtype(dtype_value, torch)", "C13.flow"),
 ]
+MUTANTS += [
+    M("encoder drops the evidence fields before writing", "src/aspire/samples.py", "dictionary[\"xp\"] = self.xp.__name__\n        return dictionary", "dictionary[\"xp\"] = self.xp.__name__\n        for name in (\"log_w\", \"log_evidence\"):\n            dictionary.pop(name, None)\n        return dictionary", "C13.samples"),
+    M("save() defaults to the flat layout", "src/aspire/samples.py", "def save(self, h5_file, path=\"samples\", flat=False):", "def save(self, h5_file, path=\"samples\", flat=True):", "C13.samples"),
+]
+
 NEUTRALS = [
+    M("encoder drops the per-sample weights, which are rebuilt on construction", "src/aspire/samples.py", "dictionary[\"xp\"] = self.xp.__name__\n        return dictionary", "dictionary[\"xp\"] = self.xp.__name__\n        for name in (\"log_w\", \"weights\"):\n            dictionary.pop(name, None)\n        return dictionary"),
     M("arrays with at least one axis written gzip-compressed", "src/aspire/utils.py", "g.create_dataset(full_key, data=encode_for_hdf5(value))",
       "data = encode_for_hdf5(value)\n                    if getattr(data, \"ndim\", 0) > 0 and data.size > 0:\n                        g.create_dataset(full_key, data=data, compression=\"gzip\")\n                    else:\n                        g.create_dataset(full_key, data=data)"),
     M("namespace names matched by substring, jax first", _U, "if name in {\"numpy\", \"numpy.ndarray\"}:\n            import array_api_compat.numpy as np_xp\n\n            return np_xp\n        if name in {\"jax\", \"jax.numpy\"}:\n            import jax.numpy as jnp\n\n            return jnp",
